@@ -132,6 +132,11 @@ def run_alias(ctx, templates, dflt):
     elif dflt == 'undefined-name':
         default_rule = 'nowhere'
     enf = common.mk_enforcer(rules=rules, default_rule=default_rule)
+    if bool(ctx.bool('installed_as_Rules')):
+        # the rule set handed over as a Rules object built without a
+        # default: the enforcer's own default rule still governs
+        from oslo_policy import policy as _policy
+        enf.set_rules(_policy.Rules(dict(rules)))
 
     # -- acyclicity as a solver assumption ---------------------------------
     def var(c):
